@@ -6,6 +6,8 @@ use std::panic::{catch_unwind, AssertUnwindSafe};
 use pmtiles2::{Compression, Directory, Entry, PMTiles, TileType};
 
 mod faulty;
+mod spec;
+mod witness;
 pub use faulty::FaultyStream;
 
 fn quiet<T>(f: impl FnOnce() -> T) -> std::thread::Result<T> {
@@ -167,6 +169,34 @@ fn main() {
                 Ok(()) => println!("OK {id}: behaviour is correct on this tree"),
                 Err(m) => { println!("DEFECT {id}: {m}"); std::process::exit(1); }
             }
+        }
+        Some("witness") => {
+            let id = args.get(2).expect("property id").as_str();
+            if id == "C08" {
+                // a stack overflow or abort cannot be caught in-process: run the search in a child and watch it
+                let exe = std::env::current_exe().unwrap();
+                let out = std::process::Command::new(exe).args(["witness-child", "C08"]).output().unwrap();
+                let so = String::from_utf8_lossy(&out.stdout);
+                if let Some(l) = so.lines().find(|l| l.starts_with("WITNESS ")) { println!("{l}"); std::process::exit(1); }
+                if !out.status.success() {
+                    let last = so.lines().filter(|l| l.starts_with("PROGRESS ")).last().unwrap_or("PROGRESS (first input)").to_string();
+                    println!("WITNESS process crashed ({:?}) on the hostile input after: {}", out.status, &last[9..]);
+                    std::process::exit(1);
+                }
+                println!("{}", so.lines().last().unwrap_or("NO-WITNESS"));
+                return;
+            }
+            let r = match id {
+                "C05" => witness::c05(), "C19" => witness::c19(), "C04" => witness::c04(), "C10" => witness::c10(), "C16" => witness::c16(),
+                "C01" | "C02" | "C18" => witness::c01_c02_c18(), "C03" | "C11" | "C20x" => witness::c03_c11_c20(), "C06" => witness::c06(),
+                "C07" => witness::c07(), "C09" => witness::c09(), "C15" => witness::c15(), "C17" => witness::c17(), "C13" => witness::c13(),
+                "C12" => witness::c12(), "C20" => witness::c20(),
+                _ => { println!("NO-WITNESS no search registered for {id}"); return; }
+            };
+            match r { Ok(n) => println!("NO-WITNESS evaluated={n}"), Err(m) => { println!("WITNESS {m}"); std::process::exit(1); } }
+        }
+        Some("witness-child") => {
+            match witness::c08_child() { Ok(n) => println!("NO-WITNESS evaluated={n}"), Err(m) => { println!("WITNESS {m}"); std::process::exit(1); } }
         }
         Some("open") => {
             let b = std::fs::read(&args[2]).unwrap();
